@@ -18,6 +18,7 @@ var c05Types = []TypeSpec{
 	{K: KString, W: WSlice}, {K: KInt, W: WSlice}, {K: KString, W: WSlicePtr},
 	{K: KString, W: WMap, MapKey: KString}, {K: KInt, W: WMap, MapKey: KString},
 	{K: KBool},
+	{K: KBag}, {K: KOnOff},
 }
 
 var c05IniModes = []string{"none", "normal-before-cli", "as-defaults-before-cli", "as-defaults-after-cli"}
@@ -32,6 +33,10 @@ func c05Value(r *Rand, t TypeSpec, tag string) string {
 		return fmt.Sprintf("%s%d", tag, r.Intn(1000))
 	case t.K == KBool:
 		return "true"
+	case t.K == KOnOff:
+		return []string{"on", "off"}[r.Intn(2)]
+	case t.K == KBag:
+		return fmt.Sprintf("%s%d", tag, r.Intn(1000))
 	case t.K == KFloat64:
 		return fmt.Sprintf("%d.%d", r.Intn(100), r.Intn(100))
 	case t.K == KDuration:
@@ -62,8 +67,14 @@ func c05Run(c *Ctx) {
 	home := int(k % 4) // 0 root, 1 nested group (env-namespace), 2 doubly nested, 3 command
 	multi := t.IsMulti()
 	isBool := t.K == KBool && t.W == WScalar
-	if isBool {
-		ndef = 0
+	if isBool || t.K == KOnOff {
+		ndef = 0 // (default tags on bool-kinded types are refused at declaration time)
+	}
+	if t.K == KBag {
+		// an unmarshaler that appends: the statement's "replace" cannot be asked of the occurrences of one source,
+		// but a lower-ranked source must still not leak into the result: judged for default tags / environment
+		// over pre-stored content only
+		ncli, iniMode = 0, "none"
 	}
 	// (a scalar with two default tags ends with the last one)
 
@@ -97,9 +108,16 @@ func c05Run(c *Ctx) {
 		sg := &Grp{Cmd: hostCmd, Parent: g, Field: fmt.Sprintf("N%d", i), Desc: fmt.Sprintf("Nest %d", i)}
 		if r.Chance(3, 4) {
 			sg.EnvNS = fmt.Sprintf("NS%d", i)
+			if g.EnvNS != "" && r.Chance(1, 3) {
+				// the inner namespace happens to start with the outer one and the delimiter
+				sg.EnvNS = g.EnvNS + d.envDelim() + "IN"
+			}
 		}
 		if r.Bool() {
 			sg.Namespace = fmt.Sprintf("ns%d", i)
+			if g.Namespace != "" && r.Chance(1, 3) {
+				sg.Namespace = g.Namespace + d.nsDelim() + "in"
+			}
 		}
 		g.Subs = append(g.Subs, sg)
 		d.Grps = append(d.Grps, sg)
@@ -110,9 +128,16 @@ func c05Run(c *Ctx) {
 		section = flipCase(section) // group descriptions are matched case-insensitively (command paths are not)
 	}
 	focus := &Opt{ID: d.NewID(), Field: "Focus", Long: "focus", Short: 'f', T: t, Grp: g, Cmd: hostCmd}
+	if g.Namespace != "" && r.Chance(1, 3) {
+		focus.Long = g.Namespace + d.nsDelim() + "focus"
+	}
 	envKey := ""
 	if envMode != "unset" || r.Bool() {
 		focus.Env = fmt.Sprintf("VH_C05_%d_%d", c.K, c.Seed)
+		if g.EnvNS != "" && r.Chance(1, 3) {
+			// the key happens to start with its own namespace and the delimiter (the prefix is still added)
+			focus.Env = g.EnvNS + d.envDelim() + focus.Env
+		}
 		if multi && r.Chance(2, 3) {
 			focus.EnvDelim = []string{",", ";"}[r.Intn(2)]
 		}
@@ -314,16 +339,16 @@ func init() {
 		Cases: func(tier string) int64 {
 			switch tier {
 			case "thorough":
-				return 14 * 2 * 3 * 3 * 4 * 3 * 4 * 30
+				return 16 * 2 * 3 * 3 * 4 * 3 * 4 * 30
 			case "race":
 				return 100000
 			}
-			return 14 * 2 * 3 * 3 * 4 * 3 * 4
+			return 16 * 2 * 3 * 3 * 4 * 3 * 4
 		},
 		Run:           c05Run,
 		MinNontrivial: 300,
 		RaceCases:     100000,
-		Rule: "case k decodes to the exhaustive product: 14 option types (scalars, pointers, slices, slice of pointers, maps, Duration, Unmarshaler, bool) x pre-stored value {absent, present} x default tags {0,1,2} x environment {unset, set, set-but-empty} x INI {none, normal before CLI, as-defaults before CLI, as-defaults after CLI} x command-line occurrences {0,1,2} x home {root, group with env-namespace, doubly nested, sub-command}; random values, env-delim {none , ;}, 4 env-namespace delimiters, section names in random case, INI key by field name or namespaced long name, 1-3 entries for multi-valued options. " +
+		Rule: "case k decodes to the exhaustive product: 16 option types (scalars, pointers, slices, slice of pointers, maps, Duration, Unmarshalers incl. a bool-kinded and an appending one, bool) x pre-stored value {absent, present} x default tags {0,1,2} x environment {unset, set, set-but-empty} x INI {none, normal before CLI, as-defaults before CLI, as-defaults after CLI} x command-line occurrences {0,1,2} x home {root, group with env-namespace, doubly nested, sub-command}; random values, env-delim {none , ;}, 4 env-namespace delimiters, env keys / inner namespaces / long names that happen to start with their own namespace and delimiter, section names in random case, INI key by field name or namespaced long name, 1-3 entries for multi-valued options. " +
 			"Oracle: the field equals exactly the reference conversion of the values of the highest-ranked source present (CLI > INI > env > default tags > pre-stored); an unrelated option keeps its default. Non-trivial = judged cell; distinct = (type, top source, INI mode, full source subset, home, delimiter, #values).",
 		Assumptions: []string{"set-but-empty environment variables are unspecified (the unchanged code treats them as providing \"\")", "normal-mode INI read after the command line is not ranked by the statement and is not generated", "callback options get no defaults"},
 		Technique:   "runtime reference-model monitor over the exhaustive product of value sources, real environment variables and INI readers; race detector on a concurrent re-run with disjoint env keys (thorough)",
